@@ -150,7 +150,7 @@ theorem case_adopt (hok : ∀ s a, fairEnv s a → ok s a) (h : PState ok j0 jo 
     · exact Or.inl hx
     · refine Or.inr ⟨t, rfl, ?_, htname, hdead⟩
       unfold lookTask
-      rw [hpods, List.append_nil, htname]
+      rw [hpods, List.append_nil, htname, hclk]
       exact hlook
   refine ⟨jo', hname, hcan, ?_, hclk, by rw [hjob], hcfgw, hrs⟩
   by_cases hdecided : t.ref.status.result = .succeeded ∨ (jo.job.status.tasks.length : Int) + 1 ≥ jo.job.maxAttempts
